@@ -1648,6 +1648,16 @@ M('C18', 'IterativeSweeps.run emits the checkpoint unguarded', 'tenpy/algorithms
   "            if not is_first_sweep:\n                self.checkpoint.emit(self)\n", "            self.checkpoint.emit(self)\n",
   'RESUME-checkpoint-guard')
 
+M('C11', 'MPO.group_sites advances the old index by the nominal group size', 'tenpy/networks/mpo.py',
+  "            i += gs.n_sites\n", "            i += n\n",
+  'GROUP-stride')
+M('C09', 'MPS.group_sites fetches theta over the nominal group size', 'tenpy/networks/mps.py',
+  "            new_B = self.get_theta(i, gs.n_sites, formL=B_form[0], formR=B_form[1])", "            new_B = self.get_theta(i, n, formL=B_form[0], formR=B_form[1])",
+  'GROUP-stride')
+M('C10', 'twin: NearestNeighborModel.group_sites names the group size', 'tenpy/models/model.py',
+  "            old_Hb = self.H_bond[(i + gs.n_sites) % old_L]\n", "            size = gs.n_sites\n            old_Hb = self.H_bond[(i + size) % old_L]\n",
+  None, expect='silent')
+
 # ---------------------------------------------------------------- C16 / C19
 M('C16', 'GMRES restart: relative residual norm used for normalisation (round-3 seed b)', KRY,
   """        self.total_error.append([npc.norm(self.rs[-1]) / self.b_norm])
